@@ -36,7 +36,10 @@ PATHS = [('/', 'GET'), ('/x/y', 'GET'), ('/clastic_assets/nope', 'GET'), ('/<b>{
          ('/clastic_assets/../x', 'GET'), ('/clastic_assets//etc/passwd', 'GET'), ('/clastic_assets/a/../../b', 'GET'),
          ('/', 'PROPFIND'), ('/x/y', 'purge'), ('/', 'get'), ('/', 'HEAD'), ('/x', 'OPTIONS'),
          # the mount point itself (empty PATH_INFO) and paths made of slashes only
-         ('', 'GET'), ('//', 'GET'), ('///', 'POST')]
+         ('', 'GET'), ('//', 'GET'), ('///', 'POST'),
+         # request lines as clastic's own development server turns them into an environ (that is how the failsafe
+         # application is served after a failed start-up): percent-encoded text beyond latin-1, a query string
+         (u'@dev/€', 'GET'), (u'@dev/日本/x', 'GET'), (u'@dev/café', 'POST'), (u'@dev/x?q=€', 'GET')]
 
 
 def deadline_passed():
@@ -242,7 +245,12 @@ def check_text(acc, flaw, family, text, flname, files, neutral_cache):
         return
     std = is_standard(text) if isinstance(text, str) else None
     for path, method in PATHS:
-        res = wsgi.call(app, path, method)
+        if path.startswith('@dev'):
+            p_, _, q_ = path[4:].partition('?')
+            from urllib.parse import quote as _quote
+            res = wsgi.call(app, None, environ=wsgi.dev_server_environ(p_, method, query=_quote(q_.encode('utf-8'), safe='=&')))
+        else:
+            res = wsgi.call(app, path, method)
         acc.evaluated += 1
         acc.transitions += 1
         acc.validated += 1
